@@ -271,7 +271,9 @@ def prop_C10(tier):
 
 
 def prop_C11(tier):
-    return pct_tables(tier) + pct_encode(tier) + pct_decode(tier) + pct_roundtrip(tier)
+    # the http(s) fast path's byte classes must be subsets of the "no encoding needed" bytes of each component: fastpath t<=3
+    fp = [x for x in fastpath(tier) if tier != Q or x.name in ("fastpath_http_t3", "fastpath_https_t3")]
+    return pct_tables(tier) + pct_encode(tier) + pct_decode(tier) + pct_roundtrip(tier) + fp
 
 
 def prop_C18(tier):
@@ -306,12 +308,23 @@ def prop_C09(tier):
                  with_limit=True, tag="_limit", pick=PICK_C09)
 
 
+def url_fields(tier):
+    o = []
+    for which, name, ms in ((0, "protocol", lens(tier, (2, 5), (0, 1, 2, 3, 4, 5, 6))), (1, "port", lens(tier, (2,), (0, 1, 2, 3, 5)))):
+        for m in ms:
+            o.append(Obl(f"urlfields_set_{name}_m{m}", "url_fields.c", [U("vk_url_fields_step", stubs=STR_STUBS)], defs={"M": m, "WHICH": which, "N": 1},
+                         unwind=max(m + 4, 9), harness_unwind=17, maxcpy=16, mem_gb=24, timeout=(400 if tier == Q else 1800), weight=6 + m))
+    return o
+
+
 def prop_C19(tier):
-    return inv_lemma(tier) + steps(tier, pick=PICK_C19)
+    # ada::url field-level steps (harness/url_fields.c): measured out of memory at 12 GB -> attempted in the thorough tier only
+    return inv_lemma(tier) + steps(tier, pick=PICK_C19) + (url_fields(tier) if tier != Q else [])
 
 
 def prop_C05(tier):
-    return inv_lemma(tier) + pct_encode(tier)[:6] + steps(tier, pick={("set_username", 1), ("clear_hash", 0)})
+    # canonical IPv6 serializer (part of "the href is a parse fixed point"): all addresses
+    return inv_lemma(tier) + pct_encode(tier)[:6] + steps(tier, pick={("set_username", 1), ("clear_hash", 0)}) + ipv6_ser(tier)
 
 
 def prop_C02(tier):
@@ -409,8 +422,18 @@ def tables(tier):
     return o
 
 
+def limit_race(tier):
+    o = []
+    for name, m in (("set_username", 1), ("set_password", 1), ("set_port", 2)):
+        for n in lens(tier, (7,), (7, 9)):
+            u = Unit("default", ["vk_st_" + name], stubs=STR_STUBS, atomics_hook=True)
+            o.append(Obl(f"limit_race_{name}_n{n}_m{m}", "limit_race.c", [u], defs={"N": n, "M": m, "BN": 15, "KERNEL": "F_vk_st_" + name},
+                         unwind=17, harness_unwind=60, maxcpy=16, mem_gb=16, timeout=(500 if tier == Q else 2400), weight=12, replay="generated"))
+    return o
+
+
 def prop_C13(tier):
-    return tables(tier)
+    return tables(tier) + limit_race(tier)
 
 
 def canon(tier):
@@ -484,7 +507,7 @@ def prop_C08(tier):
 def fastpath(tier):
     o = []
     for https in (0, 1):
-        for t in lens(tier, (1, 3, 5), range(0, 8 - https)):
+        for t in lens(tier, (1, 3), range(0, 8 - https)):
             d = {"T": t, "BN": 15}
             if https:
                 d["HTTPS"] = 1
